@@ -273,10 +273,11 @@ where
                 }
             }
 
-            // Skip if outside boundary.
+            // Successors outside the boundary are never selected below, so only an initial state
+            // can be outside it: there is no trace to check then.
             if !model.within_boundary(&state) {
                 log::trace!("Found state outside of boundary");
-                break;
+                return;
             }
 
             // add the current fingerprint to the path
@@ -364,8 +365,10 @@ where
                 }
             }
             if !is_awaiting_discoveries {
+                // Every property has a discovery already, and this path is not known to be
+                // maximal, so it must not replace an eventually counterexample.
                 log::trace!("Found all discoveries");
-                break;
+                return;
             }
 
             // generate the possible next actions
@@ -392,6 +395,12 @@ where
                         log::trace!("No next state");
                     }
                     Some(next_state) => {
+                        if !model.within_boundary(&next_state) {
+                            // not a successor as far as checking is concerned: the path only ends
+                            // here if no other action leads to a state inside the boundary
+                            log::trace!("Next state outside of boundary");
+                            continue;
+                        }
                         // now clear the actions for the next round
                         actions.clear();
                         state = next_state;
